@@ -340,10 +340,11 @@ def main(ctx: Ctx) -> None:
         per = project(res["ops"])
         rech = B.user_modules(res["ref"].get("rechecked"))
         for m in rech:
-            # write_cache writes the data record unless the module started with a usable cache entry whose
-            # interface hash equals the new one (a module whose meta was abandoned has no old hash)
+            # write_cache writes the data record unless the interface hash equals the old one; the old hash comes
+            # from the cache entry that was FOUND for the module (even when validate_meta then rejected the entry
+            # because the source changed); a module for which no entry was found has no old hash
             changed = (res["first"]["ifaces"].get(m) != res["ref"]["ifaces"].get(m)
-                       or m in (res["ref"].get("nometa") or []))
+                       or m in (res["ref"].get("nohash") or []))
             had = m in res["first"]["ifaces"]
             lines.append(f"U 1 {int(changed)} 1 {'0' if had else '-'} 0000 {'0' if had else '-'} {'0,0' if had else '-'} {'0' if had else '-'}")
             keys.append((res, m, per.get(m, []), changed))
